@@ -202,7 +202,7 @@ func execC20(seg []Ev) []Ev {
 			case "mutelem":
 				// change, in place, an element that the variant created itself while growing
 				v := h.slots[toInt(in["v"])]
-				if i := toInt(in["i"]); v.Type() == variants.Array && i < v.Length() {
+				if i := toInt(in["i"]); v.Type() == variants.Array && i >= 0 && i < v.Length() {
 					if el := v.GetByIndex(i); el != nil {
 						if _, named := h.names[el]; !named {
 							el.SetAsInteger(7)
@@ -408,6 +408,17 @@ func genC20(g *Gen) {
 		}
 		if j < 0 {
 			break
+		}
+	}
+	// growth: every pair of index writes on arrays built from lists of every small size (spare capacity left by an earlier growth)
+	for size := 0; size <= 5; size++ {
+		els5 := []any{"e1", "e2", "e3", "e4", "e5"}[:size]
+		for i1 := 0; i1 <= 7; i1++ {
+			for i2 := 0; i2 <= 9; i2++ {
+				g.Run("pairs of index writes x initial sizes", []Ev{{"op": "new"}, {"op": "listset", "list": "L1", "elems": els5},
+					{"op": "fromlist", "v": 1, "list": "L1", "how": "SetAsArray"}, {"op": "setbyindex", "v": 1, "i": i1, "e": "e1"},
+					{"op": "setbyindex", "v": 1, "i": i2, "e": "e2"}, {"op": "mutelem", "v": 1, "i": i2 - 1}})
+			}
 		}
 	}
 	// random histories over 4 slots and 2 lists
